@@ -113,9 +113,19 @@ fn main() {
                 continue;
             }
             let fmt = if f[0] == "f32" { mlv::oracle::Fmt::F32 } else { mlv::oracle::Fmt::F64 };
-            let int = if f[1] == "-" { Vec::new() } else { f[1].as_bytes().to_vec() };
-            let frac = if f[2] == "-" { Vec::new() } else { f[2].as_bytes().to_vec() };
+            // "x<hex>" = arbitrary (hostile) bytes; anything else = the digits themselves
+            let field = |s: &str| -> Vec<u8> {
+                if s == "-" {
+                    Vec::new()
+                } else if let Some(h) = s.strip_prefix('x') {
+                    (0..h.len() / 2).map(|k| u8::from_str_radix(&h[2 * k..2 * k + 2], 16).unwrap()).collect()
+                } else {
+                    s.as_bytes().to_vec()
+                }
+            };
+            let (int, frac) = (field(f[1]), field(f[2]));
             let exp: i32 = f[3].parse().unwrap();
+            let hostile = f[4].starts_with("hostile");
             println!("MIRI-CASE C08T {i} {} {} ({} digits)", f[0], f[4], int.len() + frac.len());
             for ci in [0usize, 2] {
                 let cfg = &mlv::cfgs::CFGS[ci];
@@ -123,6 +133,7 @@ fn main() {
                     Ok(bits) => {
                         std::hint::black_box(bits);
                     }
+                    Err(_) if hostile => {} // a clean panic is the documented contract for invalid bytes
                     Err(m) => {
                         println!("MIRI-VIOLATION C08T {i}: config {} panicked on valid input: {m}", cfg.name);
                         std::process::exit(1);
